@@ -202,3 +202,97 @@ func (f *Fn) GuardsOf(l Loc) []string {
 	sort.Strings(out)
 	return out
 }
+
+// SearchPreds returns, for every call sort.Search(n, func(i int) bool { return cmp }) in the
+// function, the linear normal form of cmp ("?text" when cmp is not a linear comparison).
+func (f *Fn) SearchPreds() []string {
+	var out []string
+	ast.Inspect(f.Body, func(n ast.Node) bool {
+		call, ok := n.(*ast.CallExpr)
+		if !ok || types.ExprString(call.Fun) != "sort.Search" || len(call.Args) != 2 {
+			return true
+		}
+		out = append(out, f.searchPred(call))
+		return true
+	})
+	return out
+}
+
+func (f *Fn) searchPred(call *ast.CallExpr) string {
+	fl, ok := call.Args[1].(*ast.FuncLit)
+	if !ok || len(fl.Body.List) != 1 {
+		return "?" + types.ExprString(call.Args[1])
+	}
+	rs, ok := fl.Body.List[0].(*ast.ReturnStmt)
+	if !ok || len(rs.Results) != 1 {
+		return "?" + types.ExprString(call.Args[1])
+	}
+	if s, ok := LinearCmp(f.Info, rs.Results[0]); ok {
+		return s
+	}
+	return "?" + types.ExprString(rs.Results[0])
+}
+
+// Narrowing is one statement that re-slices the named slice (a variable or a field path such as
+// "it.chunks"): target = target[a:b].
+type Narrowing struct {
+	Pos    string
+	Text   string
+	Guards []string // linear forms of the conjuncts of enclosing for/if conditions (true arms)
+	Search string   // linear form of the sort.Search predicate used as the low bound, if any
+}
+
+// Narrowings lists the re-slicing assignments of target in the function.
+func (f *Fn) Narrowings(target string) []Narrowing {
+	var out []Narrowing
+	var stack []ast.Node
+	ast.Inspect(f.Body, func(n ast.Node) bool {
+		if n == nil {
+			stack = stack[:len(stack)-1]
+			return true
+		}
+		stack = append(stack, n)
+		as, ok := n.(*ast.AssignStmt)
+		if !ok || len(as.Lhs) != 1 || len(as.Rhs) != 1 || types.ExprString(as.Lhs[0]) != target {
+			return true
+		}
+		se, ok := ast.Unparen(as.Rhs[0]).(*ast.SliceExpr)
+		if !ok {
+			return true
+		}
+		nw := Narrowing{Pos: f.P.Pos(as.Pos()), Text: types.ExprString(as.Lhs[0]) + " = " + types.ExprString(as.Rhs[0])}
+		if call, ok := se.Low.(*ast.CallExpr); ok && types.ExprString(call.Fun) == "sort.Search" && len(call.Args) == 2 {
+			nw.Search = f.searchPred(call)
+		}
+		var conj func(e ast.Expr)
+		conj = func(e ast.Expr) {
+			e = ast.Unparen(e)
+			if be, ok := e.(*ast.BinaryExpr); ok && be.Op == token.LAND {
+				conj(be.X)
+				conj(be.Y)
+				return
+			}
+			if s, ok := LinearCmp(f.Info, e); ok {
+				nw.Guards = append(nw.Guards, s)
+			} else {
+				nw.Guards = append(nw.Guards, "?"+types.ExprString(e))
+			}
+		}
+		for i := len(stack) - 2; i >= 0; i-- {
+			switch s := stack[i].(type) {
+			case *ast.ForStmt:
+				if s.Cond != nil && stack[i+1] == ast.Node(s.Body) {
+					conj(s.Cond)
+				}
+			case *ast.IfStmt:
+				if stack[i+1] == ast.Node(s.Body) {
+					conj(s.Cond)
+				}
+			}
+		}
+		sort.Strings(nw.Guards)
+		out = append(out, nw)
+		return true
+	})
+	return out
+}
